@@ -2,11 +2,17 @@
 
 pub mod c02;
 pub mod c03;
+pub mod c04;
+pub mod c05;
+pub mod c06;
 pub mod c07;
 pub mod c08;
 pub mod c09;
+pub mod c10;
 pub mod c12;
 pub mod common;
+pub mod hist;
+pub mod refnet;
 pub mod c13;
 pub mod c14;
 pub mod c15;
@@ -169,12 +175,61 @@ fn build_registry() -> Vec<PropDef> {
         watchdog_thorough: 3000,
         exhaustive_note: Some("pairwise disjointness is complete over all terminal pairs of each tree with <= 24 terminals"),
     },
+    PropDef {
+        id: "C10",
+        level: "exploration",
+        cases_quick: 4_000,
+        cases_thorough: 400_000,
+        run_case: c10::run_case,
+        rule: "one case = (60%) a generated constraint system in R^n, n in 1..4, of one of the classes box+cuts, cone, slab (lineality space), free halfspaces, empty by a margin, empty by 1e-9 (thin band), lower-dimensional, with zero rows (bias +,0,-), duplicates/scaled/parallel rows, all-space, random; status(), is_feasible() and solve_linprog for three objectives (random integer, +- a constraint normal, +- a coordinate) are refereed by the exact simplex: Infeasible only if uniform slack < 1e-4, feasible answers only if slack > -1e-4, witness inside within 1e-6 relative, Optimal value within 1e-6 relative of the exact minimum, Unbounded iff non-empty and unbounded below; (20%) Chebyshev programs of polytopes with rational row norms (axis-aligned and 3-4-5 rows): the constructed program equals {a_i x + |a_i| r <= b_i, r >= 0, min -r} row for row, radius within 1e-6 of the exact optimum, ball inscribed; (20%) online: every LP solved by infeasible_elimination and a pruned composition on a random tree with history, logged through the hook (query + real answer) and refereed by the same oracle. Non-trivial = the instance belongs to a special class (not box+cuts / random), a Chebyshev case, or an online pipeline with at least one LP; distinct = hash of the instance.",
+        assumptions: &["thin band |t*| < 1e-4: either verdict allowed (skipped)", "HiGHS backend is not built in this sandbox; only the default minilp backend is observed"],
+        watchdog_quick: 400,
+        watchdog_thorough: 3000,
+        exhaustive_note: None,
+    },
+    PropDef {
+        id: "C06",
+        level: "exploration",
+        cases_quick: 1_500,
+        cases_thorough: 150_000,
+        run_case: c06::run_case,
+        rule: "one case = (65%) a total binary tree with infeasible paths: a random total tree with contradicting predicates planted at every depth, or an affine root, followed by 1..4 steps of unpruned composition with schema trees (ReLU, leaky ReLU, hard tanh, hard shrink), apply_func and earlier eliminations (so that states are cached); after infeasible_elimination every surviving non-root node's path region is classified exactly (empty by a margin => violation), no non-root decision with a thick region may be left with a single branch, a second run on a clone must leave indices, functions and child arrays identical and find zero infeasible LPs, and the function is preserved on thick cells; (35%) a random net (1..3 inputs, up to 7 ReLU / leaky ReLU / hard tanh neurons in up to 3 layers) distilled with afftree_from_layers: all activation patterns are enumerated with the reference network, each closed cell classified exactly, and num_terminals() must lie between the number of full-dimensional cells and the number of cells not empty by a margin. Non-trivial = the first run removed a node resp. the net has an empty activation pattern; distinct = structural hash / hash of the net.",
+        assumptions: &["thin band |t*| < 1e-4 is never asserted"],
+        watchdog_quick: 400,
+        watchdog_thorough: 3000,
+        exhaustive_note: Some("all activation patterns of each generated net are enumerated; every surviving node of each tree is classified"),
+    },
+    PropDef {
+        id: "C04",
+        level: "exploration",
+        cases_quick: 1_500,
+        cases_thorough: 150_000,
+        run_case: c04::run_case,
+        rule: "one case = one operation history on AffTree<2>: constructor drawn from {new, from_aff, from_poly with / without else-branch (sometimes infeasible), every schema generator, manually built total/partial tree} followed by 1..25 operations drawn (with per-case swarm weights for pruning and partial operands) from apply_func, compose::<false> / compose::<true> with schema trees (ReLU, leaky, hard tanh, hard shrink, threshold, hard sigmoid, argmax, class characterisation, inf-norm) or random total/partial trees, infeasible_elimination, reduce, tree +/- tree in the four ownership forms, tree +/- affine in the four forms, negation; arguments made dimension-compatible by a small type model (biased to output dimensions >= 2). After EVERY step: tree-level and AffTree-level well-formedness walker with the predicted output dimension, and (exact-arithmetic histories) the result's exact walk against the exact model 'op applied to the previous snapshot' on probe inputs that end in a thick cell of the result. A panic is caught per step; a process abort (take_mut) is attributed through the write-ahead marker. At the end a usability battery (evaluate, Display, Debug, Dot, polyhedra_iter, depth_stats, a further elimination and reduce). Non-trivial = at least one pruning operation and at least two structure-changing operations; distinct = hash of constructor kind + op-kind sequence.",
+        assumptions: &["operations whose documented outcome is a panic are never generated (dimension-incompatible arguments, argmax on width < 2)", "histories containing hard sigmoid (1/6 is not a dyadic) are checked for well-formedness and panics only"],
+        watchdog_quick: 500,
+        watchdog_thorough: 3000,
+        exhaustive_note: None,
+    },
+    PropDef {
+        id: "C05",
+        level: "exploration",
+        cases_quick: 1_500,
+        cases_thorough: 150_000,
+        run_case: c05::run_case,
+        rule: "one case = (75%) an operation history as in C04 (exact regimes) with pruning weight 0.8, into which repeated infeasible_elimination runs, apply_func_at_node on cached terminals and a final remove_axes (+ elimination) are inserted; after EVERY step every node's cache is refereed: each point of a FeasibleWitness list must satisfy every exact path row within 1e-8(1+1e-6) + 4 ulp * sum|a_i p_i|, lists must be non-empty and of the tree's input dimension, and no node marked Infeasible may have a path region with exact uniform slack >= 1e-4; (25%) a direct call mirror_points(P, starts, n) on random polytopes (1..4 dims, 1..6 rows, row norms 1e-6..1e3, zero rows, starts near or 1e3 away, 1..20 iterations): every returned column must satisfy every row within 1e-9 relative. Non-trivial = at least one witness was kept unchanged at a node whose parent, children or function changed in that step (resp. mirror_points returned points after at least one move); distinct = hash of the history / instance.",
+        assumptions: &["a Feasible mark on an empty region is not unsound (it can only reduce pruning) and is not checked", "apply_func_at_node is applied to terminals only (on decisions it is documented as caller's responsibility)"],
+        watchdog_quick: 500,
+        watchdog_thorough: 3000,
+        exhaustive_note: Some("every cached state of every node is checked after every step of each history"),
+    },
     ]
 }
 
 pub fn check_known_witness(prop: &str, k: &Known) -> Result<bool, String> {
     match (prop, k.key.as_str()) {
         ("C15", c15::K1_KEY) => c15::k1_witness(&k.witness),
+        ("C10", c15::K1_KEY) => c10::k1_witness(&k.witness),
         _ => Err("no witness executor for this property/key".into()),
     }
 }
